@@ -93,6 +93,8 @@ def auto_models(j, skip=()):
             sqm = 'int sl = sq_find(%s); if (sl < 0 || %s >= sq_size[sl]) { __ipr_throw(IPR_EXC_std__out_of_range); return 0; } return (%s)&sq_elem_at(sl, %s);' % (ps[0][1], ps[1][1], s['ret'], ps[1][1])
         elif re.match(r'std::vector<[^<>]*\*>::operator\[\]$', q) and len(ps) == 2:
             sqm = 'int sl = sq_find(%s); __CPROVER_assert(sl >= 0 && %s < sq_size[sl], "sequence model: operator[] within bounds"); return (%s)&sq_elem_at(sl, %s);' % (ps[0][1], ps[1][1], s['ret'], ps[1][1])
+        elif re.match(r'std::vector<[^<>]*\*>::(front|back)$', q) and len(ps) == 1:
+            sqm = 'int sl = sq_find(%s); __CPROVER_assert(sl >= 0 && sq_size[sl] > 0, "sequence model: front() / back() of a non-empty vector"); return (%s)&sq_elem_at(sl, %s);' % (ps[0][1], s['ret'], '0' if q.endswith('front') else 'sq_size[sl] - 1')
         elif re.match(r'std::vector<[^<>]*\*>::resize$', q) and len(ps) == 2:
             sqm = 'int sl = sq_slot(%s); __CPROVER_assert(%s <= SEQ_CAP, "sequence model: resize within the harness bound"); for (int k = 0; k < SEQ_CAP; k++) if (k >= sq_size[sl]) sq_elem_at(sl, k) = 0; sq_size[sl] = %s;' % (ps[0][1], ps[1][1], ps[1][1])
         elif re.match(r'std::deque<.*>::(operator\[\]|at)$', q) and len(ps) == 2:
